@@ -1,0 +1,15 @@
+//! Simulated replacement of `socket_helper`, compiled only with `--cfg simple_dns_verif`.
+//! Same two entry points; the sockets come from the deterministic simulator.
+use simrt::shim_std as std;
+
+use std::{io, net::UdpSocket};
+
+use crate::NetworkScope;
+
+pub fn sender_socket(ipv4: bool) -> io::Result<UdpSocket> {
+    simrt::net::sender_socket(ipv4)
+}
+
+pub fn join_multicast(network_scope: NetworkScope) -> io::Result<UdpSocket> {
+    simrt::net::join_multicast(network_scope.is_v4())
+}
